@@ -97,7 +97,10 @@ fn gen_multi_error_program(ch: &mut Ch) -> String {
             let n = 2 + ch.pick(5);
             let mut s = String::new();
             for i in 0..n {
-                s.push_str(&format!("t{i} = {}\n", ["1 + true", "if 3 then 1 else 2", "5 5", "(x : int) => x + false", "true * 2"][ch.pick(5)]));
+                // With and without an annotation; the annotation may itself be at fault (not a
+                // type, or not the type of the definition).
+                let ann = ["", "", " : 5", " : bool", " : (2 * 3)", " : int", " : (1 < 2)"][ch.pick(7)];
+                s.push_str(&format!("t{i}{ann} = {}\n", ["1 + true", "if 3 then 1 else 2", "5 5", "(x : int) => x + false", "true * 2", "1", "true"][ch.pick(7)]));
             }
             s.push_str("0\n");
             s
